@@ -1,9 +1,10 @@
 (* C17 - xsl:number counts per the Recommendation, independent of evaluation history; formatting
-   decodes.  Statements only; proofs are in Num7FmtModel.v / Num7CacheModel.v.  The models
+   decodes.  Statements only; proofs are in Num7FmtModel.v / Num7CacheModel.v /
+   Num7WalkModel.v / Num7EqbModel.v.  The models
    (Num7FmtDefs.v, Num7CountDefs.v) follow ElemNumber.cpp / CountersTable.cpp / XalanNumberFormat.cpp as
    coded; tables and limits come from GenNum7.v (regenerated from /repo on every run). *)
 From Coq Require Import List NArith ZArith Bool Arith Lia.
-Require Import XV.GenNum7 XV.Num7FmtDefs XV.Num7CountDefs XV.Num7FmtModel XV.Num7CacheModel.
+Require Import XV.GenNum7 XV.Num7FmtDefs XV.Num7CountDefs XV.Num7FmtModel XV.Num7CacheModel XV.Num7EqbModel XV.Num7WalkModel.
 Import ListNotations.
 
 (* ============================== formatting ================================================== *)
@@ -116,50 +117,83 @@ Example counters_instance_value :
 Proof. vm_compute. reflexivity. Qed.
 
 (* ---- the walks of ElemNumber over the zipper against section 7.7 ---------------------------- *)
+
+(* level="any", for every label type, count / from predicate, tree, and every history of nodes
+   numbered by one instruction (one counters table) in any order: each node gets the number of
+   count-matching nodes among itself and the nodes before it in document order (preceding and
+   ancestor axes), back to - and excluding - the first node before it that matches from.
+   [leqb] is the test used for pointer equality; any decision procedure for equality will do. *)
+Theorem count_any_spec :
+  forall (A : Type) (cnt frm : A -> bool) (leqb : loc A -> loc A -> bool),
+    (forall a b, leqb a b = true <-> a = b) ->
+    forall h : list (loc A), exists tbl,
+      run_history A (patc A cnt) frm leqb 2 [] h
+      = Some (tbl, map (fun l => let n := spec_any A frm cnt l in if n =? 0 then [] else [n]) h).
+Proof. exact history_any. Qed.
+Print Assumptions count_any_spec.
+
+(* level="multiple": one number per count-matching node of the ancestor-or-self axis below the
+   nearest proper ancestor matching from, outermost first; each number is 1 + the number of
+   count-matching preceding siblings *)
+Theorem count_multiple_spec :
+  forall (A : Type) (cnt frm : A -> bool) (leqb : loc A -> loc A -> bool),
+    (forall a b, leqb a b = true <-> a = b) ->
+    forall h : list (loc A), exists tbl,
+      run_history A (patc A cnt) frm leqb 1 [] h = Some (tbl, map (spec_multiple A frm cnt) h).
+Proof. exact history_multiple. Qed.
+Print Assumptions count_multiple_spec.
+
+(* level="single": the same for the first (innermost) such node only *)
+Theorem count_single_spec :
+  forall (A : Type) (cnt frm : A -> bool) (leqb : loc A -> loc A -> bool),
+    (forall a b, leqb a b = true <-> a = b) ->
+    forall h : list (loc A), exists tbl,
+      run_history A (patc A cnt) frm leqb 0 [] h = Some (tbl, map (spec_single A frm cnt) h).
+Proof. exact history_single. Qed.
+Print Assumptions count_single_spec.
+
+(* the equality hypothesis is discharged for the structural test used by the extracted driver:
+   what the driver computes for a whole document and any numbering order IS the section 7.7 list *)
+Lemma run_doc_level : forall hf level doc order,
+  (level = 0 \/ level = 1 \/ level = 2) ->
+  run_doc true hf level doc order = Some (spec_doc hf level doc order).
+Proof.
+  intros hf level doc order Hl. unfold run_doc, spec_doc.
+  change (pat3 true) with (patc lab3 l3_cnt).
+  set (all := locs lab3 doc Top). set (f := fun i => nth i all (doc, Top)).
+  pose proof (loc_eqb_spec lab3 lab3_eqb lab3_eqb_spec) as Heq.
+  destruct Hl as [-> | [-> | ->]].
+  - destruct (history_single lab3 l3_cnt (frm3 hf) (loc_eqb lab3 lab3_eqb) Heq (map f order)) as [tbl E].
+    rewrite E, map_map. reflexivity.
+  - destruct (history_multiple lab3 l3_cnt (frm3 hf) (loc_eqb lab3 lab3_eqb) Heq (map f order)) as [tbl E].
+    rewrite E, map_map. reflexivity.
+  - destruct (history_any lab3 l3_cnt (frm3 hf) (loc_eqb lab3 lab3_eqb) Heq (map f order)) as [tbl E].
+    rewrite E, map_map. reflexivity.
+Qed.
+
+Theorem numbering_is_section_7_7 : forall (has_from : bool) (level : nat) (doc : tree lab3) (order : list nat),
+  (level = 0 \/ level = 1 \/ level = 2) ->
+  run_doc true has_from level doc order = Some (spec_doc has_from level doc order).
+Proof. exact run_doc_level. Qed.
+Print Assumptions numbering_is_section_7_7.
+
 Definition L (name : N) (c f : bool) : lab3 := (name, c, f).
 
-(* <d><h/><x/><h/><x/><x/></d>, count="x" from="h" *)
+(* the documents on which the unrepaired code deviated (K-new-1, K12, K-new-3), by computation *)
 Definition doc_leaf_from : tree lab3 :=
   Node (L 0 false false) [Node (L 1 false false)
     [Node (L 2 false true) []; Node (L 3 true false) []; Node (L 2 false true) []; Node (L 3 true false) []; Node (L 3 true false) []]].
-
-(* K-new-1: level="any": a childless node matching from does not cut the count *)
-Theorem count_any_spec_refuted :
-  exists doc order, run_doc true true 2 doc order <> Some (spec_doc true 2 doc order).
-Proof. exists doc_leaf_from, [3; 5; 6]. vm_compute. discriminate. Qed.
-Print Assumptions count_any_spec_refuted.
-
 Example count_any_leaf_from_values :
-  run_doc true true 2 doc_leaf_from [3; 5; 6] = Some [[1]; [2]; [3]] /\ spec_doc true 2 doc_leaf_from [3; 5; 6] = [[1]; [1]; [2]].
+  run_doc true true 2 doc_leaf_from [3; 5; 6] = Some [[1]; [1]; [2]]
+  /\ run_doc true true 2 doc_leaf_from [6; 5; 3; 5] = Some [[2]; [1]; [1]; [1]].
 Proof. vm_compute. auto. Qed.
 
-(* with a child below each from node the walk and 7.7 agree on this document, in any of these orders *)
-Definition doc_from_with_child : tree lab3 :=
-  Node (L 0 false false) [Node (L 1 false false)
-    [Node (L 2 false true) [Node (L 9 false false) []]; Node (L 3 true false) [];
-     Node (L 2 false true) [Node (L 9 false false) []]; Node (L 3 true false) []; Node (L 3 true false) []]].
-Example count_any_agrees_sample :
-  run_doc true true 2 doc_from_with_child [4; 7; 8] = Some (spec_doc true 2 doc_from_with_child [4; 7; 8])
-  /\ run_doc true true 2 doc_from_with_child [8; 4; 7; 8; 1] = Some (spec_doc true 2 doc_from_with_child [8; 4; 7; 8; 1]).
-Proof. vm_compute. auto. Qed.
-
-(* K12: level="single" ignores from: <x><h><y/></h></x>, count="x" from="h", numbering y *)
 Definition doc_single_from : tree lab3 :=
   Node (L 0 false false) [Node (L 3 true false) [Node (L 2 false true) [Node (L 4 false false) []]]].
-Theorem count_single_spec_refuted :
-  exists doc order, run_doc true true 0 doc order <> Some (spec_doc true 0 doc order).
-Proof. exists doc_single_from, [3]. vm_compute. discriminate. Qed.
-Print Assumptions count_single_spec_refuted.
+Example count_single_from_values : run_doc true true 0 doc_single_from [3; 2; 1] = Some [[]; [1]; [1]].
+Proof. vm_compute. reflexivity. Qed.
 
-(* K-new-3: level="multiple": a current node that itself matches from gets the empty list *)
 Definition doc_self_from : tree lab3 :=
   Node (L 0 false false) [Node (L 1 true false) [Node (L 2 true true) []]].
-Theorem count_multiple_spec_refuted :
-  exists doc order, run_doc true true 1 doc order <> Some (spec_doc true 1 doc order).
-Proof. exists doc_self_from, [2]. vm_compute. discriminate. Qed.
-Print Assumptions count_multiple_spec_refuted.
-
-Example count_multiple_values :
-  run_doc true true 1 doc_self_from [2] = Some [[]] /\ spec_doc true 1 doc_self_from [2] = [[1; 1]]
-  /\ run_doc true false 1 doc_self_from [2; 1; 2] = Some (spec_doc false 1 doc_self_from [2; 1; 2]).
-Proof. vm_compute. auto. Qed.
+Example count_multiple_values : run_doc true true 1 doc_self_from [2] = Some [[1; 1]].
+Proof. vm_compute. reflexivity. Qed.
